@@ -166,11 +166,16 @@ class Resolver:
         self.last_used_scope += 1
         self.current_scope = self.scopes[self.last_used_scope]
 
-    def restore_scope(self, exports: bool = False) -> None:
+    def restore_scope(self, exports: bool = False, expanding: bool = False) -> None:
         if exports and isinstance(self.current_scope, NamedScope):
             scope = self.current_scope
             if scope.parent is not None:
-                scope.parent.symbols |= {f"{scope.name}.{k}": v for k, v in scope.symbols.items()}
+                # := constants are exported while the program is expanded; the label passes export what they
+                # give a value to (labels, = symbols), so that a constant of one piece of a scope does not
+                # replace, between sizing and emission, the label another piece has exported under that name.
+                scope.parent.symbols |= {
+                    f"{scope.name}.{k}": v for k, v in scope.symbols.items() if expanding or k in scope.announced
+                }
                 # what the scope has announced but not defined yet is pending under its exported name too:
                 # until then scope.name must not fall through to an outer scope of the same name. A scope may
                 # be written in several pieces: the exported name is settled when the last piece that announced
